@@ -40,6 +40,8 @@ def machines():
     # a state *output* that is a free primary input marked as output (the next state is what was applied last step): its per-step
     # copies are free inputs, not buffers waiting for a driver
     yield "state-output-that-is-a-free-input", build({"s": ("input", []), "p": ("input", []), "x": ("input", []), "y": ("and", ["s", "p"]), "z": ("xor", ["s", "x"])}, outputs=["p", "y", "z"]), {"p": "s"}
+    # no state at all: n independent copies, each reading its own step's inputs
+    yield "no-state-pairs", build({"a": ("input", []), "b": ("input", []), "y": ("xor", ["a", "b"]), "z": ("nor", ["a", "y"])}, outputs=["y", "z"]), {}
     yield "state-out-used-as-output", build({"x": ("input", []), "s": ("input", []), "ns": ("or", ["x", "s"])}, outputs=["ns"]), {"ns": "s"}
 
 
@@ -137,6 +139,11 @@ def seq_machines():
     c10 = build({"x": ("input", []), "clk": ("input", []), "r0.clk": ("bb_input", ["clk"]), "r0.d": ("bb_input", ["r0_next"]), "r0.q": ("bb_output", []), "r0_cur": ("buf", ["r0.q"]),
                  "r0_qb": ("not", ["r0_cur"]), "r0_next": ("xor", ["x", "r0_qb"]), "y": ("and", ["x", "r0_cur"])}, outputs=["y", "r0_qb"], blackboxes={"r0": ff})
     yield "nets-named-after-the-flop-instance", c10, ff
+    # ... and an ordinary net that carries the very name an *ignored* pin would have been exposed under (`r0_clk` beside the
+    # ignored pin r0.clk): the ignored pin is gone after stripping, the net is not a pin
+    c10b = build({"x": ("input", []), "clk": ("input", []), "r0.clk": ("bb_input", ["clk"]), "r0.d": ("bb_input", ["g"]), "r0.q": ("bb_output", []), "w": ("buf", ["r0.q"]),
+                  "r0_clk": ("not", ["x"]), "g": ("xor", ["r0_clk", "w"]), "y": ("and", ["r0_clk", "w"])}, outputs=["y"], blackboxes={"r0": ff})
+    yield "net-named-like-an-ignored-pin", c10b, ff
     # instance names that end in the letters of the q pin / in an underscore (IRQ, Q_, qq): the per-flop dictionary of initial values
     # is keyed by the instance name, which is the state input's name minus the *suffix* `_q`
     c11 = build({"x": ("input", []), "clk": ("input", []),
@@ -145,6 +152,12 @@ def seq_machines():
                  "qq.clk": ("bb_input", ["clk"]), "qq.d": ("bb_input", ["w1"]), "qq.q": ("bb_output", []), "w2": ("buf", ["qq.q"]),
                  "g0": ("xor", ["x", "w0"]), "g1": ("nand", ["w0", "w2"]), "y": ("or", ["w1", "w2"])}, outputs=["y"], blackboxes={"IRQ": ff, "Q_": ff, "qq": ff})
     yield "instance-names-ending-in-the-letters-of-the-q-pin", c11, ff
+    # instance names that differ only in the case of their letters
+    c12 = build({"x": ("input", []), "clk": ("input", []),
+                 "r0.clk": ("bb_input", ["clk"]), "r0.d": ("bb_input", ["g0"]), "r0.q": ("bb_output", []), "w0": ("buf", ["r0.q"]),
+                 "R0.clk": ("bb_input", ["clk"]), "R0.d": ("bb_input", ["g1"]), "R0.q": ("bb_output", []), "w1": ("buf", ["R0.q"]),
+                 "g0": ("xor", ["x", "w1"]), "g1": ("nor", ["w0", "x"]), "y": ("and", ["w0", "w1"])}, outputs=["y"], blackboxes={"r0": ff, "R0": ff})
+    yield "instance-names-differing-in-case", c12, ff
 
 
 # the documented forms of ignore_pins: one name, or a list of names
@@ -175,9 +188,15 @@ def check_seq(c, n, uc, io_map, add_flop_outputs, initial):
     for k in [f"{i}_d" for i in insts] + [f"{i}_q" for i in insts] + ins + sorted(c.outputs()):
         if k not in io_map or len(io_map[k]) != n:
             return {"problem": "io_map lacks an entry (of length n) for an io of the stripped circuit", "key": k, "keys": sorted(io_map)}
-    gone = {"clk"} | {f"{i}_{p}" for i in insts for p in c.blackboxes[i].io() - {"d", "q"}}
-    if any(g in x for x in uc.nodes() for g in gone):
-        return {"problem": "ignored clock pins / unloaded clock input were not removed", "nodes": sorted(x for x in uc.nodes() if any(g in x for g in gone))}
+    # (a name that an ordinary node of the circuit carries is that node's, not a pin's)
+    gone = ({"clk"} | {f"{i}_{p}" for i in insts for p in c.blackboxes[i].io() - {"d", "q"}}) - {g_ for g_ in c.nodes() if g_ != "clk"}
+    import re as _re_
+
+    def _base(x):
+        return _re_.sub(r"_cg_unroll_\d+(_\d+)?$", "", _re_.sub(r"^unrolled_\d+_", "", x))
+
+    if any(_base(x) in gone for x in uc.nodes()):
+        return {"problem": "ignored clock pins / unloaded clock input were not removed", "nodes": sorted(x for x in uc.nodes() if _base(x) in gone)}
     free_init = [i for i in insts if not initial or (isinstance(initial, dict) and i not in initial)]
     want_free = {io_map[i][t] for i in ins for t in range(n)} | {io_map[f"{i}_q"][0] for i in free_init}
     got_free = set(free_nodes(uc))
@@ -245,6 +264,13 @@ def run(chk):
         r = P.call(FILE, "unroll", *args)
         n_eval += 1
         chk.ob("C09.G.guards", f"unroll::{label}", r[0] == "raise" and r[1] == want, file=FILE, func="unroll", line=fu.node.lineno, fact={"result": str(r)[:100]}, expect=want)
+    # names built from unroll's own patterns (`unrolled_<i>_<node>`, `<io>_<prefix>_<i>`): the per-step io names are made unique against
+    # the argument, not against the names the copies get in the unrolled circuit - refused loudly
+    cn_ = build({"unrolled_0_a": ("input", []), "a_cg_unroll_0": ("not", ["unrolled_0_a"]), "o": ("buf", ["a_cg_unroll_0"])}, outputs=["o"])
+    r = P.call(FILE, "unroll", cn_, 2, {})
+    n_eval += 1
+    chk.ob("C09.N.names", "unroll::nodes named unrolled_0_<io> and <io>_cg_unroll_0", r[0] == "return", file=FILE, func="unroll", line=fu.node.lineno, fact={"result": str(r)[:160]},
+           expect="the unrolled circuit (the copies and the per-step io are named apart whatever the node names are)")
     for name, c, ff in seq_machines():
         r = P.call(FILE, "unroll", c, 2, {})
         chk.ob("C09.G.guards", f"unroll::blackboxes::{name}", r[0] == "raise" and r[1] == "ValueError", file=FILE, func="unroll", line=fu.node.lineno, fact={"result": str(r)[:100]}, expect="ValueError")
@@ -275,7 +301,7 @@ def run(chk):
         # without ignore_pins the unloaded clock input is removed by remove_unloaded
         r = P.call(FILE, "sequential_unroll", c, 2, "d", "q")
         n_eval += 1
-        ok = r[0] == "return"
+        ok = r[0] == "return" or (name == "net-named-like-an-ignored-pin" and r[:2] == ("raise", "ValueError"))  # (there the exposed pin's name is taken: the documented overlap error)
         chk.ob("C09.Q.sequential_unroll-default-pins", f"sequential_unroll::{name}::no ignore_pins", ok, file=FILE, func="sequential_unroll", line=fs.node.lineno, fact={"result": str(r)[:120]}, expect="returns")
         for label, args in (("bad d port", (c, 2, "nope", "q")), ("bad q port", (c, 2, "d", "nope"))):
             r = P.call(FILE, "sequential_unroll", *args)
